@@ -432,6 +432,8 @@ class Escape:
                 e = st.exc.func if isinstance(st.exc, ast.Call) else st.exc
                 cls = canon(e)
                 self.expr(st.exc, st, ci, mod, fd, taint, stack, chain)
+            if self.raise_infeasible(st, fd, taint):
+                return
             self.site("raise", cls, st, mod, ci, fd, "raise %s" % cls, stack, chain)
             return
         if isinstance(st, ast.Return):
@@ -463,6 +465,105 @@ class Escape:
         for e in ast.iter_child_nodes(st):
             if isinstance(e, ast.expr):
                 self.expr(e, st, ci, mod, fd, taint, stack, chain)
+
+    STR_METHODS = {"decode", "join", "format", "strip", "lstrip", "rstrip", "lower", "upper", "replace", "hex"}
+    BYTES_CALLS = {"bytes", "bytearray", "struct.pack", "bytes.fromhex", "bytearray.fromhex"}
+
+    def static_type(self, e, fd, taint, depth=0):
+        """'str' / 'bytes' when the expression has that type on every evaluation, else None"""
+        if depth > 4:
+            return None
+        if isinstance(e, ast.Constant):
+            return "str" if isinstance(e.value, str) else "bytes" if isinstance(e.value, bytes) else None
+        if isinstance(e, ast.JoinedStr):
+            return "str"
+        if isinstance(e, ast.BinOp) and isinstance(e.op, ast.Mod):
+            return self.static_type(e.left, fd, taint, depth + 1) if self.static_type(e.left, fd, taint, depth + 1) == "str" else None
+        if isinstance(e, ast.BinOp) and isinstance(e.op, ast.Add):
+            a, b = self.static_type(e.left, fd, taint, depth + 1), self.static_type(e.right, fd, taint, depth + 1)
+            return a or b           # `+` is only defined between equal sequence types
+        if isinstance(e, ast.Call):
+            fn_ = canon(e.func)
+            if fn_ == "str":
+                return "str"
+            if fn_ in self.BYTES_CALLS:
+                return "bytes"
+            if isinstance(e.func, ast.Attribute):
+                if e.func.attr == "encode":
+                    return "bytes"
+                if e.func.attr in self.STR_METHODS and e.func.attr != "hex":
+                    return "str"
+                if e.func.attr == "gen_msg":
+                    return "bytes"
+            return None
+        if isinstance(e, ast.Name):
+            t = taint.get("$type:" + e.id)
+            dnodes = [n for n in ast.walk(fd) if isinstance(n, ast.Assign) and len(n.targets) == 1 and
+                      isinstance(n.targets[0], ast.Name) and n.targets[0].id == e.id]
+            # definitions textually after the use do not reach it, unless both sit in one loop
+            use_line = getattr(e, "lineno", None)
+            if use_line is not None:
+                later = [n for n in dnodes if n.lineno >= use_line and not (n.lineno == use_line and n.value is not None and
+                                                                         not any(x is e for x in ast.walk(n.value)))]
+                in_loop = False
+                for n in later:
+                    q = getattr(n, "_parent", None)
+                    while q is not None and q is not fd:
+                        if isinstance(q, (ast.For, ast.While)) and any(x is e for x in ast.walk(q)):
+                            in_loop = True
+                        q = getattr(q, "_parent", None)
+                if in_loop:
+                    return None
+                dnodes = [n for n in dnodes if n not in later]
+            defs = [n.value for n in dnodes]
+            other = [n for n in ast.walk(fd) if isinstance(n, (ast.AugAssign, ast.For, ast.With, ast.NamedExpr)) and any(
+                isinstance(x, ast.Name) and x.id == e.id and isinstance(x.ctx, ast.Store) for x in ast.walk(n))]
+            tuple_defs = [n for n in ast.walk(fd) if isinstance(n, ast.Assign) and any(
+                isinstance(t_, (ast.Tuple, ast.List)) and any(isinstance(x, ast.Name) and x.id == e.id for x in ast.walk(t_))
+                for t_ in n.targets)]
+            if other or tuple_defs:
+                return None
+            if not defs:
+                return t
+            if t is not None:
+                # a parameter that is re-assigned: all values must agree
+                tys = {self.static_type(d, fd, taint, depth + 1) for d in defs if not (
+                    isinstance(d, ast.Name) and d.id == e.id)} | {t}
+            else:
+                tys = {self.static_type(d, fd, taint, depth + 1) for d in defs}
+            return tys.pop() if len(tys) == 1 else None
+        return None
+
+    def raise_infeasible(self, st, fd, taint):
+        """the raise is guarded by a type test of a parameter whose static type (from the call chain) makes the
+        guard false: isinstance(p, T) / type(p) in (...) / type(p) is T"""
+        import re as _re
+        try:
+            lits = guard_literals(self.cfg(fd), self.cfg(fd).node_of(st))
+        except AnalysisError:
+            return False
+        PY = {"str": {"str"}, "bytes": {"bytes"}}
+        for text, pol in lits:
+            m = _re.fullmatch(r"isinstance\((\w+), (.+)\)", text)
+            m2 = _re.fullmatch(r"type\((\w+)\) (?:in|is|==) (.+)", text) or _re.fullmatch(r"(.+) (?:is|==) type\((\w+)\)", text)
+            name, types = None, None
+            if m:
+                name, types = m.group(1), m.group(2)
+            elif m2:
+                g = m2.groups()
+                name, types = (g[0], g[1]) if _re.fullmatch(r"\w+", g[0]) and "type(" in text.split(" ")[0] else (g[1], g[0])
+            if name is None:
+                continue
+            ty = taint.get("$type:" + name)
+            if ty is None:
+                continue
+            listed = set(_re.findall(r"[A-Za-z_]\w*", types))
+            holds = bool(PY[ty] & listed) if ty in PY else None
+            if holds is None:
+                continue
+            if holds != pol:
+                return True         # this guard literal is false for the call chain's argument type
+        return False
 
     def qn(self, ci, fd):
         return "%s.%s" % (ci.name, fd.name) if ci is not None else fd.name
@@ -529,6 +630,21 @@ class Escape:
             return
         for c2, m2, self_first in r:
             t2 = self.bind(n, c2, m2, self_first, taint, ci, mod)
+            # static types of the arguments (str / bytes), used to discard raises guarded by a type test that
+            # cannot fail for this call chain
+            ps_ = [a.arg for a in m2.args.args]
+            pn_ = ps_[1:] if (c2 is not None and ps_ and ps_[0] in ("self", "cls")) else ps_
+            as_ = list(n.args)[1:] if self_first is True else list(n.args)
+            for i_, a_ in enumerate(as_):
+                if i_ < len(pn_) and not isinstance(a_, ast.Starred):
+                    ty = self.static_type(a_, fd, taint)
+                    if ty:
+                        t2["$type:" + pn_[i_]] = ty
+            for kw_ in n.keywords:
+                if kw_.arg is not None:
+                    ty = self.static_type(kw_.value, fd, taint)
+                    if ty:
+                        t2["$type:" + kw_.arg] = ty
             for t, k in taint.items():
                 if t.startswith("self."):
                     t2.setdefault(t, k)
